@@ -146,6 +146,8 @@ var rawLinks = []string{
 	` </v2/x?last=a>; rel="next"`,      // leading blank: missing '<'
 	`<%zz>; rel="next"`,                // net/url rejects the target
 	`<http://reg.test/%zz?last=a>`,     // net/url rejects the target
+	``,                                 // no Link header although items may remain: the listing ends
+	``,
 }
 
 // rawTarget returns the text between '<' and '>' of a malformed-stream link that has one.
@@ -444,8 +446,14 @@ func listCase(sc *Scenario) {
 	// what disturbs the listing, in request order
 	disturbed := -1 // index of the first exchange that cannot be completed normally
 	oversize := -1
+	cut := -1 // index of an answer without Link although items remain: "stop when no next link is given"
 	for i, x := range reg.Log {
-		bad := x.Status != 200 || !x.JSONOK || x.Dec.RawLink != nil || (x.Kind == 'R' && x.CType != ocispec.MediaTypeImageIndex)
+		// a link that is simply missing (RawLink "") is not an error: the listing ends there
+		missing := x.Dec.RawLink != nil && *x.Dec.RawLink == ""
+		bad := x.Status != 200 || !x.JSONOK || (x.Dec.RawLink != nil && !missing) || (x.Kind == 'R' && x.CType != ocispec.MediaTypeImageIndex)
+		if missing && x.More && !bad && disturbed < 0 && cut < 0 {
+			cut = i
+		}
 		if x.Status == 200 && int64(x.DocLen) > effLimit(sc.Limit) {
 			bad = true
 			if oversize < 0 {
@@ -458,6 +466,19 @@ func listCase(sc *Scenario) {
 		// never read more than the limit
 		if x.Status == 200 && int64(x.BytesRead()) > effLimit(sc.Limit) {
 			fail("over-read", fmt.Sprintf("response %d: %d bytes consumed, MaxMetadataBytes %d (effective %d)", i, x.BytesRead(), sc.Limit, effLimit(sc.Limit)))
+		}
+	}
+	if cut >= 0 && (disturbed < 0 || cut < disturbed) {
+		// everything up to and including that page, nothing more, no error
+		k := 0
+		for _, x := range reg.Log[:cut+1] {
+			k += len(filterAT(sc, x.Unfilt))
+		}
+		expected = expected[:k]
+		disturbed = -1
+		run.Count("list_link_missing_midway")
+		if len(reg.Log) != cut+1 {
+			fail("request-without-link", fmt.Sprintf("answer %d had no Link header, %d requests were sent", cut, len(reg.Log)))
 		}
 	}
 	// the requests: first one carries last / n, later ones are the link with n re-set
@@ -1176,6 +1197,12 @@ func wrapCase(sc *Scenario) {
 	}
 	if sc.State != "U" && state != sc.State {
 		fail("state-changed", fmt.Sprintf("capability was %s, is %s afterwards", sc.State, state))
+	}
+	// never read more than the limit of any metadata answer (API pages and the index of the fallback)
+	for i, x := range reg.Log {
+		if x.Status == 200 && int64(x.BytesRead()) > effLimit(sc.Limit) {
+			fail("over-read", fmt.Sprintf("response %d (%c): %d bytes consumed, MaxMetadataBytes %d (effective %d)", i, x.Kind, x.BytesRead(), sc.Limit, effLimit(sc.Limit)))
+		}
 	}
 	// an error answer that does not mean "no referrers API" is returned, not worked around
 	if sc.State == "U" && !sc.NoAPI && len(api) > 0 {
